@@ -14,7 +14,14 @@
 //        F c j p=<0|1>                          open the gate of the running job j (p=1: it panics)   (model: finish, next)
 //        X c                                    Close the conn; the engine's close handler calls MustExecute(1000+c)
 //        B c n k hold=<0|1>                     burst: k goroutines submit n ungated jobs each, concurrently
-//                                               (hold=1: behind a gated job that is released afterwards)
+//                                               (hold=1: behind a gated job that is released afterwards; for
+//                                               kind=async n*k goes up to 3000 so that the backing array of the
+//                                               queue grows past 1024 entries and the drainer's shrink branch runs)
+//        H c n k                                hammer: k goroutines call Execute n times each while another
+//                                               goroutine calls Close (free running; repeated by the failing-input
+//                                               search `gen -tier hammer`)
+// exec appends big=<0|1> to every op of a kind=async case: the queue's backing array shrank during the op
+// (Timer.Async took its `cap > 1024` reset branch) — an input of the model's reset step.
 // Engine.Execute is set through the public field to: inline (f()), go (go f()), pool (a bounded pool of
 // `slots` workers with a FIFO backlog), park (closures are kept until W), tp (nbio's own taskpool.Go).
 //
@@ -26,16 +33,19 @@
 //	   overlap       two jobs of one conn inside job() at the same time
 //	   order         jobs did not run in submission order
 //	   multiplicity  an accepted job ran twice or never
-//	   closed        Execute on a closed conn returned true / its job ran; Execute on an open conn returned false
+//	   closed        Execute on a closed conn returned true / its job ran; Execute on an open conn returned false;
+//	                 a job accepted by Execute ran after the conn's close handler
 //	   panic         a recovered panic was not logged exactly once, or later jobs did not run
 package main
 
 import (
 	"fmt"
+	"runtime"
 	"sort"
 	"strconv"
 	"strings"
 	"sync"
+	"sync/atomic"
 	"time"
 
 	"harness/internal/lp"
@@ -136,8 +146,78 @@ func (s *gsim) finish(c int) {
 	s.runUngated(c)
 }
 
+// genHammer: Execute racing Close (free running; the failing-input search repeats these).
+func genHammer(g *lp.Gen) {
+	nconn := 1 + g.Intn(2)
+	g.P("C kind=conn exec=%s slots=1 nconn=%d", g.Pick("go", "go", "inline", "tp"), nconn)
+	next := 1
+	for c := 0; c < nconn; c++ {
+		if g.Chance(1, 2) { // some completed work first
+			g.P("S %d %d must=0 g=1 from=-", c, next)
+			g.P("F %d %d p=0", c, next)
+			next++
+		}
+	}
+	for c := 0; c < nconn; c++ {
+		g.P("H %d %d %d", c, 20+g.Intn(200), 2+g.Intn(7))
+		g.P("S %d %d must=0 g=0 from=-", c, next)
+		next++
+		if g.Chance(1, 2) {
+			g.P("S %d %d must=1 g=0 from=-", c, next)
+			next++
+		}
+	}
+}
+
+// genBacklog: Timer.Async with a backlog of more than 1024 functions behind a gated first one (the
+// drainer's `cap > 1024` shrink branch), then submissions after the drain.
+func genBacklog(g *lp.Gen) {
+	g.P("C kind=async exec=go slots=1 nconn=1")
+	next := 1
+	rounds := 1
+	if g.Chance(1, 4) {
+		rounds = 2
+	}
+	for r := 0; r < rounds; r++ {
+		k := 2 + g.Intn(3)
+		total := 1100 + g.Intn(1200)
+		if g.Chance(1, 8) {
+			total = 2300 + g.Intn(700)
+		}
+		if g.Chance(1, 4) {
+			total = g.PickInt(1023, 1024, 1025, 1030, 2047, 2049)
+		}
+		g.P("B 0 %d %d hold=1", (total+k-1)/k, k)
+		for i := 0; i < 1+g.Intn(3); i++ {
+			gated := g.Chance(2, 3)
+			g.P("S 0 %d must=1 g=%d from=-", next, b2i(gated))
+			if gated {
+				if g.Chance(1, 2) {
+					g.P("S 0 %d must=1 g=0 from=%d", next+1, next)
+					next++
+					g.P("F 0 %d p=%d", next-1, b2i(g.Chance(1, 5)))
+				} else {
+					g.P("F 0 %d p=%d", next, b2i(g.Chance(1, 5)))
+				}
+			}
+			next++
+		}
+		if g.Chance(1, 2) {
+			g.P("B 0 %d %d hold=%d", 5+g.Intn(40), 2+g.Intn(3), b2i(g.Chance(1, 2)))
+		}
+	}
+}
+
 func gen(g *lp.Gen) {
 	for cs := 0; cs < g.N; cs++ {
+		if g.Tier == "hammer" || g.Chance(1, 12) {
+			genHammer(g)
+			continue
+		}
+		if g.Chance(1, 60) {
+			genBacklog(g)
+			continue
+		}
 		s := &gsim{kind: "conn", slots: 1}
 		if g.Chance(1, 5) {
 			s.kind = "async"
@@ -313,6 +393,7 @@ type segment struct { // what was handed over, in order, per conn (for the order
 	single int
 	burst  [][]int // per submitter
 	hold   int
+	hammer bool // a burst racing Close: return values are not predetermined
 }
 
 type sess struct {
@@ -332,6 +413,7 @@ type sess struct {
 	closed  []bool
 	segs    [][]segment
 	npanic  int
+	lastCap int
 	key     strings.Builder
 	nontriv bool
 	bserial int
@@ -392,6 +474,7 @@ func newSess(kind, exec string, slots, nconn int, lg *capLogger) *sess {
 	lg.mu.Unlock()
 	if kind == "async" {
 		s.tm = timer.New("verif")
+		s.lastCap = s.tm.VerifAsyncCap()
 		return s
 	}
 	s.g = nbio.NewEngine(nbio.Config{NPoller: 1})
@@ -440,6 +523,30 @@ func (s *sess) jobsLen() string {
 		p = append(p, strconv.Itoa(c.ExecuteLen()))
 	}
 	return strings.Join(p, ",")
+}
+
+// echo prints the annotated op line (after the implementation has become stable, so that the
+// environment's answers can be attached).
+func (s *sess) echo(e *lp.Exec, line string) {
+	quiesce.Wait(30 * time.Second)
+	var toks []string
+	for _, t := range strings.Fields(line) {
+		if !strings.HasPrefix(t, "big=") {
+			toks = append(toks, t)
+		}
+	}
+	e.P("> %s big=%d", strings.Join(toks, " "), s.bigNow())
+}
+
+// bigNow: did Timer.Async replace its backing array by a small one since the last op?
+func (s *sess) bigNow() int {
+	if s.kind != "async" {
+		return 0
+	}
+	c := s.tm.VerifAsyncCap()
+	big := b2i(c < s.lastCap)
+	s.lastCap = c
+	return big
 }
 
 // observe prints the result line after the implementation has become stable.
@@ -578,7 +685,7 @@ func exec(e *lp.Exec) {
 				s.register(j)
 				go s.call(j)
 			}
-			e.P("> %s", line)
+			s.echo(e, line)
 			s.observe(e)
 			fmt.Fprintf(&s.key, "S%d%v%v%v,", c, j.must, from != "-", s.closed[c])
 			e.Count("ops", "submit")
@@ -595,7 +702,7 @@ func exec(e *lp.Exec) {
 				continue
 			}
 			go cl()
-			e.P("> %s", line)
+			s.echo(e, line)
 			s.observe(e)
 			s.key.WriteString("W,")
 			e.Count("ops", "spawn")
@@ -615,7 +722,7 @@ func exec(e *lp.Exec) {
 				s.npanic++
 			}
 			close(j.gate)
-			e.P("> %s", line)
+			s.echo(e, line)
 			s.observe(e)
 			fmt.Fprintf(&s.key, "F%d%v,", c, j.panics)
 			s.nontriv = true
@@ -628,12 +735,12 @@ func exec(e *lp.Exec) {
 			c := pos[0]
 			s.closed[c] = true
 			s.conns[c].Close()
-			e.P("> %s", line)
+			s.echo(e, line)
 			s.observe(e)
 			fmt.Fprintf(&s.key, "X%d,", c)
 			e.Count("ops", "close")
 		case "B":
-			if len(pos) < 3 || !connOK(pos[0]) || pos[1] < 1 || pos[2] < 1 || pos[1]*pos[2] > 900 {
+			if len(pos) < 3 || !connOK(pos[0]) || pos[1] < 1 || pos[2] < 1 || pos[1]*pos[2] > 4000 {
 				bad()
 				continue
 			}
@@ -646,11 +753,105 @@ func exec(e *lp.Exec) {
 			fmt.Fprintf(&s.key, "B%d,", k)
 			s.nontriv = true
 			e.Count("ops", "burst")
+		case "H":
+			if len(pos) < 3 || !connOK(pos[0]) || pos[1] < 1 || pos[2] < 1 || pos[1]*pos[2] > 4000 {
+				bad()
+				continue
+			}
+			c, n, k := pos[0], pos[1], pos[2]
+			if s.kind != "conn" || s.exec == "park" || s.exec == "pool" || s.closed[c] || s.jobsLen() != strings.Repeat("0,", s.nconn-1)+"0" {
+				rejected()
+				continue
+			}
+			s.hammer(e, c, n, k)
+			fmt.Fprintf(&s.key, "H%d,", k)
+			s.nontriv = true
+			e.Count("ops", "hammer")
 		default:
 			bad()
 		}
 	}
 	finish()
+}
+
+// hammer: k goroutines call Execute n times each while another goroutine closes the conn (free running).
+// The property, black box: the jobs Execute accepted are, per submitter, a prefix of what it submitted, and
+// all of them run before the conn's close handler (which the engine routes through MustExecute after the
+// closed flag was set) — an accepted job that runs after the close handler was let in on a closed conn.
+func (s *sess) hammer(e *lp.Exec, c, n, k int) {
+	s.bserial++
+	base := 100000 + s.bserial*10000
+	seg := segment{burst: make([][]int, k), hammer: true}
+	var wg sync.WaitGroup
+	startGun := make(chan struct{})
+	var submitted int32
+	for i := 0; i < k; i++ {
+		ids := make([]int, n)
+		js := make([]*job, n)
+		for t := range ids {
+			ids[t] = base + i*n + t
+			j := &job{id: ids[t], conn: c, gated: false, ret: -1, called: true, reported: true, expect: -1}
+			js[t] = j
+			s.mu.Lock()
+			s.jobs[j.id] = j
+			s.mu.Unlock()
+		}
+		seg.burst[i] = ids
+		wg.Add(1)
+		go func(js []*job) {
+			defer wg.Done()
+			<-startGun
+			for _, j := range js {
+				s.call(j)
+				atomic.AddInt32(&submitted, 1)
+			}
+		}(js)
+	}
+	s.mu.Lock()
+	s.segs[c] = append(s.segs[c], seg)
+	mark := len(s.log)
+	s.mu.Unlock()
+	threshold := int32(n * k / 3)
+	wg.Add(1)
+	go func() {
+		defer wg.Done()
+		<-startGun
+		for atomic.LoadInt32(&submitted) < threshold {
+			runtime.Gosched()
+		}
+		s.conns[c].Close()
+	}()
+	s.closed[c] = true
+	close(startGun)
+	wg.Wait()
+	ok := quiesce.Wait(30 * time.Second)
+	s.mu.Lock()
+	var order []string
+	acc, ran := 0, 0
+	for _, l := range s.log[mark:] {
+		if l.kind == 's' {
+			order = append(order, strconv.Itoa(l.id))
+			ran++
+		}
+	}
+	for _, ids := range seg.burst {
+		for _, id := range ids {
+			if s.jobs[id].ret == 1 {
+				acc++
+			}
+		}
+	}
+	s.logMark = len(s.log)
+	if cj := s.jobs[1000+c]; cj != nil {
+		cj.reported = true
+	}
+	s.mu.Unlock()
+	e.P("> H %d %d %d base=%d order=%s big=0", c, n, k, base, strings.Join(order, ","))
+	if !ok {
+		e.P("timeout: the implementation did not reach a stable state")
+		return
+	}
+	e.P("acc=%d ran=%d jobs=%s", acc, ran, s.jobsLen())
 }
 
 func (s *sess) register(j *job) {
@@ -666,11 +867,11 @@ func (s *sess) register(j *job) {
 // checks that it is an admissible merge).
 func (s *sess) burst(e *lp.Exec, c, n, k int, hold bool) {
 	s.bserial++
-	base := 100000 + s.bserial*1000
+	base := 100000 + s.bserial*10000
 	seg := segment{burst: make([][]int, k)}
 	var holdJob *job
 	if hold {
-		holdJob = &job{id: base + 999, conn: c, must: s.kind == "async", gated: true, ret: -1, expect: b2i(s.kind == "async" || !s.closed[c]), gate: make(chan struct{}), cmds: make(chan func()), called: true, reported: true}
+		holdJob = &job{id: base + 9999, conn: c, must: s.kind == "async", gated: true, ret: -1, expect: b2i(s.kind == "async" || !s.closed[c]), gate: make(chan struct{}), cmds: make(chan func()), called: true, reported: true}
 		seg.hold = holdJob.id
 		s.mu.Lock()
 		s.jobs[holdJob.id] = holdJob
@@ -730,7 +931,7 @@ func (s *sess) burst(e *lp.Exec, c, n, k int, hold bool) {
 	}
 	s.logMark = len(s.log)
 	s.mu.Unlock()
-	e.P("> B %d %d %d hold=%d base=%d order=%s", c, n, k, b2i(hold), base, strings.Join(order, ","))
+	e.P("> B %d %d %d hold=%d base=%d order=%s big=%d", c, n, k, b2i(hold), base, strings.Join(order, ","), s.bigNow())
 	if !ok {
 		e.P("timeout: the implementation did not reach a stable state")
 		return
@@ -880,6 +1081,16 @@ func (s *sess) finish(e *lp.Exec, lg *capLogger) {
 		if pos < len(ran) {
 			e.Oracle(name, "multiplicity: conn %d ran %d jobs more than were accepted (first extra: %d)", c, len(ran)-pos, ran[pos])
 		}
+		// an Execute job must never run after the conn's close handler (it would have been accepted on a closed conn)
+		seenClose := false
+		for _, id := range ran {
+			if id == 1000+c {
+				seenClose = true
+			} else if j := s.jobs[id]; seenClose && j != nil && !j.must {
+				e.Oracle(name, "closed: job %d was accepted by Execute (returned %d) and ran after the close handler of conn %d: it was let in on a closed connection", id, j.ret, c)
+				break
+			}
+		}
 		for id, n := range count {
 			if n > 1 {
 				e.Oracle(name, "multiplicity: job %d ran %d times", id, n)
@@ -894,7 +1105,7 @@ func (s *sess) finish(e *lp.Exec, lg *capLogger) {
 	sort.Ints(ids)
 	for _, id := range ids {
 		j := s.jobs[id]
-		if j.ret >= 0 && j.ret != j.expect {
+		if j.ret >= 0 && j.expect >= 0 && j.ret != j.expect {
 			e.Oracle(name, "closed: submission of job %d on conn %d (must=%v) returned %d, the property demands %d", id, j.conn, j.must, j.ret, j.expect)
 		}
 	}
